@@ -1,2 +1,14 @@
+"""C01-O6: the C++ spellings (constructor, operator=, cast) of the conversions."""
+from props import halfunit
+
+
 def build_obs(chk):
-    pass
+    u, ob = halfunit.prepare(chk)
+    A = 'all bit patterns'
+    chk.add(ob('O6.ctor_forwards', 'h_ctor_forwards', 'half(float).bits() and half::operator=(float) == imath_float_to_half(f) (callee uninterpreted)', 'uf', bounds=A))
+    chk.add(ob('O6.cast_forwards', 'h_cast_forwards', 'float(half) == imath_half_to_float(bits) (callee uninterpreted)', 'uf', bounds=A))
+    chk.add(ob('O6.ctor_exact', 'h_ctor_exact', 'half(float) / operator=(float) bits == RNE reference for all 2^32 floats (clang IR of the C++ TU)', 'exact', bounds=A, timeout=120))
+    for k in range(64):
+        chk.add(ob('O6.cast_exact_slice.%02d' % k, 'h_cast_exact_%d' % k, 'float(half) through the linked real table == denoted value, h>>10 == %d' % k, 'exact',
+                   bounds='1,024 patterns of this slice', tier='thorough', backends=('cadical',), timeout=300, witness=(k in (0, 63))))
+    chk.assumptions.append('O6 uf mode: imath_half_to_float / imath_float_to_half are uninterpreted (pure, readnone/readonly-on-constant) callees; their own behaviour is O1-O5')
